@@ -51,15 +51,15 @@ func genRate(t *simrt.Tape, sane bool) vegeta.Rate {
 // schedule is the declared cumulative schedule S(t) of a pacer, computed
 // independently of the implementation, plus what the statement says about it.
 type schedule struct {
-	kind      string
-	unlimited bool            // zero frequency/unit: no schedule to exceed
-	mustStop  bool            // negative or otherwise invalid parameters: Pace must say stop
-	S         func(t time.Duration) float64
-	exact     func(t time.Duration, hits uint64) (ahead, notDue int) // constant pacer only: exact comparisons
-	lower     bool // clause (c) applies (constant, sine)
-	rate      func(t time.Duration) float64 // closed-form instantaneous rate, hits per second
-	unspecified bool // parameters for which the statement promises nothing but the absence of a panic
-	params    map[string]float64
+	kind        string
+	unlimited   bool // zero frequency/unit: no schedule to exceed
+	mustStop    bool // negative or otherwise invalid parameters: Pace must say stop
+	S           func(t time.Duration) float64
+	exact       func(t time.Duration, hits uint64) (ahead, notDue int) // constant pacer only: exact comparisons
+	lower       bool                                                   // clause (c) applies (constant, sine)
+	rate        func(t time.Duration) float64                          // closed-form instantaneous rate, hits per second
+	unspecified bool                                                   // parameters for which the statement promises nothing but the absence of a panic
+	params      map[string]float64
 }
 
 func hitsPerNs(r vegeta.Rate) float64 { return float64(r.Freq) / float64(r.Per) }
